@@ -174,6 +174,8 @@ KILL_SCRIPTS = {
     "then-echo": "sleep {tok}; echo done",
     "background-wait": "sleep {tok} & wait",
     "subshell": "(sleep {tok}; echo x) ; echo y",
+    # the shell exits at once; the background command keeps the output pipes open, so the task is still 'running'
+    "background-nowait": "sleep {tok} &",
 }
 
 
